@@ -60,10 +60,10 @@ PROPS = {
                 level_note='history dimension: the memo tables are under contract (RootScope::rule_status: first non-SKIP definition, memoised once, other entries untouched; Root/BlockScope::resolve_variable: literal wins, a memoised result is returned as stored, the first result is exactly what is memoised), assuming that the status of one rule definition does not depend on the memo state; key capture (add_variable_capture_key mutates a memoised entry by design) and that assumption itself are NOT decided; CNF conformance is bounded (3x3)',
                 not_under_contract=['add_variable_capture_key (key capture mutates memo entries)', 'state-independence of eval_rule / query_retrieval results (assumed: def_sem)', 'ValueScope delegation'], explanation=''),
     'C09': dict(level='proof', vgroups=['report', 'failed', 'status', 'eval'], kunits=[], assumptions=EVAL_ASSUME + [
-                    'ASSUMED BTreeSet<String>/Vec::extend/HashMap::extend API models', 'assumed contract of report_all_failed_clauses_for_rules (one Rule entry per FAIL rule child)'],
-                level_text='Verus proves that compliant / not_applicable are exactly the PASS / SKIP rule children of the FileCheck node, status and name are copied, not_compliant has one Rule entry per FAIL child (callee contract), the partition lemma for distinct rule names, file status vs partitions, and that combine is the union with Status::and',
-                level_note='attribution of individual checks inside report_all_failed_clauses_for_rules is only an assumed contract here',
-                not_under_contract=['report_all_failed_clauses_for_rules body (clause-level attribution)'], explanation=''),
+                    'ASSUMED BTreeSet<String>/Vec::extend/HashMap::extend API models', 'group failed: Option::map_or / iterator expressions that build message payloads routed through assumed functions (verus/prelude_failed.rs, R10m); derived Clone / Default of report types structural; PathAwareValue::self_path opaque; termination of the recursion over the record tree not proved (exec_allows_no_decreases_clause)'],
+                level_text='Verus proves that compliant / not_applicable are exactly the PASS / SKIP rule children of the FileCheck node, status and name are copied, the partition lemma for distinct rule names, file status vs partitions, that combine is the union with Status::and, and -- on the real report_all_failed_clauses_for_rules (400 lines, group failed) -- that the failure report of a record list has exactly the shape the property states: one Rule entry per FAIL rule (name, custom message, the failures of its own subtree) even when nothing below can be shown, nothing for PASS / SKIP records or successful checks, failing blocks transparent, one entry per failing value check carrying the clause custom message; the clause simplified_json_from_root assumes of it is one of its proved postconditions',
+                level_note='assumed: wf_recs (the evaluator never records a Literal in comparison / in checks, MissingBlockValue only for UnResolved) and that the children of a FileCheck node are rule records (proved for eval_rules_file in the record-tree model, not transported to EventRecord); message texts other than custom messages are opaque',
+                not_under_contract=['reporters that render FileReport (serde, console, junit, sarif)', 'record well-formedness wf_recs / all_rules (assumed preconditions)'], explanation=''),
     'C17': dict(level='proof', vgroups=['merge'], kunits=[], assumptions=COMMON_ASSUME + [
                     'ASSUMED indexmap::IndexMap<String, PathAwareValue> API (insertion ordered, unique keys; contains_key, insert, by-value iteration routed through into_entries) and Vec::extend', 'Path::extend_str assumed (no contract needed)'],
                 level_text='Verus proves on the real PathAwareValue::merge: duplicate top-level key <=> Err(MultipleValues), otherwise the result holds every entry of both operands in order with aligned key bookkeeping; lists concatenate; other type pairs are IncompatibleError; plus the lemma that the key->value mapping of a disjoint union is order independent',
